@@ -711,3 +711,31 @@ def find_item_table(ctx, pfx):
         ctx.ob('%s.TABLE[find_appropriate_item:%s]' % (pfx, v), 'RF-GUARD', ok, b.path, '%s:%s' % (b.file, b.line),
                '%s: %s' % (v, desc[v]) if ok else '%s arm no longer selects %s: %s' % (v, desc[v], [show(c)[:80] for c in mine]),
                key='RF-GUARD|find_item|%s' % v)
+
+
+def log_writes_only_when_active(ctx, pfx):
+    """the pending log receives records only while a transaction is open: Transaction::set / batch_set are called
+    only from StorageManager::set / batch_set, on the `is_transaction_active()` edge.  Records put into the log with
+    the flag down are picked up by the NEXT transaction of any clone (seeded change C12-r2-b handed the records of a
+    failed commit back to the log after the flag had been lowered)."""
+    prog = ctx.prog
+    bad, n = [], 0
+    for p, b in sorted(prog.bodies.items()):
+        if b.crate != 'akd' or '::tests' in p or 'test_utils' in p or p.startswith(TX):
+            continue
+        for ev in b.events():
+            for c in ev['calls']:
+                if not (isinstance(c, tuple) and c[0] == 'call' and call_is(c, ('Transaction::set', 'Transaction::batch_set'))):
+                    continue
+                n += 1
+                base = p.split('::{closure')[0]
+                if base not in (SM + 'set', SM + 'batch_set'):
+                    bad.append('%s writes the transaction log (%s)' % (short(base), b.loc(ev['pos'])))
+                    continue
+                dec = decisions(b, lambda fc: fc[0] == 'pred' and fc[1].endswith('is_transaction_active') and fc[3] is True)
+                if not any(d['true'] is not None and edge_dominates(b, (d['block'], d['true']), ev['pos'][0]) for d in dec):
+                    bad.append('%s writes the log without testing is_transaction_active() (%s)' % (short(base), b.loc(ev['pos'])))
+    ctx.ob(pfx + '.OWN.log_writes_only_when_active', 'RF-OWN', not bad and n >= 2, SM, None,
+           'the transaction log is written only by StorageManager::set/batch_set while a transaction is active (%d sites)' % n if not bad and n >= 2 else
+           'the pending log can receive records outside an open transaction: %s' % (bad or 'only %d sites found' % n),
+           key='RF-OWN|log_writes_only_when_active')
